@@ -183,6 +183,14 @@ def contains_signed_min(fcp, t, v):
 
 
 def values_equal(fcp, t, a, b):
+    """Type-directed equality; a value of the wrong shape for the type is simply not equal."""
+    try:
+        return _values_equal(fcp, t, a, b)
+    except Exception:
+        return False
+
+
+def _values_equal(fcp, t, a, b):
     """Exact equality, floats compared as bit patterns."""
     T = _types()
     if type(t) is T.FloatType:
